@@ -203,7 +203,7 @@ def expectations(cfg, ninst, script, horizon, first_offers):
 
 
 # --------------------------------------------------------------------------------- execution
-_RUNS = [0]
+_RUNS = [0, 0]
 
 
 class Run:
@@ -306,7 +306,14 @@ class Run:
                 self.qlog.append(("ann_start", self.h.loop.time()))
                 ann.start()
             elif k == "ann_stop":
-                ann.stop()
+                # the announcer was started by itself; shutting down goes through it or, every third time, through the whole
+                # stack's stop()
+                _RUNS[1] += 1
+                if _RUNS[1] % 3 == 2:
+                    self.prot.stop()
+                    self.stats["announcer_stopped_through_the_stack"] = self.stats.get("announcer_stopped_through_the_stack", 0) + 1
+                else:
+                    ann.stop()
             elif k == "ann_stop_again":
                 self.stats["double_stop_calls"] += 1
                 ann.stop()
@@ -371,6 +378,7 @@ def judge(ctx, cfg, ninst, script, horizon, seed, replay, tags=()):
     ctx.count("scenarios")
     ctx.count("queue_log_entries", sum(1 for q in run.qlog if q[0] == "q"))
     ctx.count("double_stop_calls", run.stats["double_stop_calls"])
+    ctx.count("announcer_stopped_through_the_stack", run.stats.get("announcer_stopped_through_the_stack", 0))
     for tg in tags:
         ctx.count(tg)
     brief = [(t, rank, {k: v for k, v in a.items()}) for t, rank, a in script][:10]
